@@ -80,9 +80,16 @@ def direct_case(ctx, rng):
     if g != want:
         bad = [k for k in names if g[k] != want[k]]
         ctx.mismatch("TimeCoords.coords/convert", case, {k: want[k] for k in bad}, {k: g[k] for k in bad})
-    # the property, on the real output, in instants (UTC)
-    inst = {k: g[k] - off_instant(zout, g[k] - 0) for k in names}  # first guess; refine once (offset at the instant)
-    inst = {k: g[k] - off_instant(zout, inst[k]) for k in names}
+    # the property, on the real output, in instants (UTC).  A reported wall-clock time that is ambiguous in the OUTPUT zone cannot
+    # be turned back into an instant: those cases are compared with the model only.
+    inst = {}
+    for k in names:
+        oo = off_local(zout, g[k])
+        if oo is None:
+            ctx.skip("reported local time ambiguous in the output zone (relations not judged)")
+            ctx.case(sig=["direct", zin, zout, double, year], nontrivial=zin != zout)
+            return
+        inst[k] = g[k] - oo
     e_oi = off_local(zin, e)
     e_inst = e - e_oi if e_oi is not None else None
     f, b = int(F), int(B)
